@@ -907,3 +907,26 @@ def whole_iteration(prog, body, src_block):
     if form is None:
         return None, "neither a `next()` loop nor a whole-sequence consumer (sum, fold, try_fold, for_each, collect ...) uses it"
     return form, "%s over the whole collection" % form
+
+
+def trace_back_deep(body, local, rounds=4):
+    """trace_back that also sees through a value packed into a struct / tuple and taken out again (`let S { a, b } = f();`
+    after f was inlined, `let (a, b) = (x, y);`): when the chain ends in an aggregate and the last projection before it
+    selected field k, it goes on from the aggregate's operand k.  Returns the final chain."""
+    tr = trace_back(body, local)
+    for _ in range(rounds):
+        if not tr or tr[-1][0] != "agg" or len(tr[-1]) < 4:
+            return tr
+        flds = [s for s in tr[:-1] if s[0] == "field"]
+        if not flds:
+            return tr
+        k = flds[-1][1]
+        st = body.stmts(tr[-1][2])[tr[-1][3]]
+        ops = st.get("o", [])
+        if not isinstance(k, int) or k >= len(ops):
+            return tr
+        l2 = op_local(ops[k])
+        if l2 is None:
+            return tr
+        tr = trace_back(body, l2)
+    return tr
